@@ -585,3 +585,53 @@ def revive_ops(g):
         for o in ops:
             o["body"] = tuplify(o["body"])
     return g
+
+
+# ----------------------------------------------------------------------------- shrinking
+
+def shrink_blocks(g, bi, still_bad, budget=14):
+    """delta-debugging on a generator record with g["blocks"] (list of op lists): bi = index of the
+    offending block; still_bad(g2) -> index of a block that still shows the same kind of verdict, or None.
+    Returns (smallest g found, index of its offending block)."""
+    import copy
+    best, bbi = g, bi
+    used = [0]
+
+    def attempt(cand):
+        if used[0] >= budget:
+            return None
+        used[0] += 1
+        try:
+            return still_bad(cand)
+        except Exception:       # noqa: BLE001 - a candidate that cannot be built is simply not smaller
+            return None
+
+    # later blocks are irrelevant
+    if bbi + 1 < len(best["blocks"]):
+        cand = copy.deepcopy(best)
+        cand["blocks"] = cand["blocks"][:bbi + 1]
+        cand["views"] = []
+        r = attempt(cand)
+        if r is not None:
+            best, bbi = cand, r
+    # earlier blocks, from the front
+    i = 0
+    while i < bbi and used[0] < budget:
+        cand = copy.deepcopy(best)
+        del cand["blocks"][i]
+        r = attempt(cand)
+        if r is not None:
+            best, bbi = cand, r
+        else:
+            i += 1
+    # transactions of the offending block
+    j = 0
+    while j < len(best["blocks"][bbi]) and len(best["blocks"][bbi]) > 1 and used[0] < budget:
+        cand = copy.deepcopy(best)
+        del cand["blocks"][bbi][j]
+        r = attempt(cand)
+        if r is not None:
+            best, bbi = cand, r
+        else:
+            j += 1
+    return best, bbi
